@@ -411,6 +411,9 @@ def run_check(prop, tier, seed, plan):
         cov.setdefault("jobs", len(jobs))
         cov.setdefault("slowest_jobs", ["%.0fs %s" % (r.wall, r.job.label[:90]) for r in sorted(results, key=lambda r: -r.wall)[:3]])
         cov.setdefault("job_modes", sorted(set(j.mode for j in jobs)))
+        fills = sorted(set(a for j in jobs for a in j.args if a.startswith("fill=")))
+        if fills:
+            cov.setdefault("fresh_memory_fill_modes", ["fill=0 (0xA5 bytes)"] + [f + (" (words of value 1)" if f == "fill=1" else " (zeroes)") for f in fills])
         if advisory:
             cov["advisory"] = advisory[:10]
         if foreign:
